@@ -10,5 +10,8 @@ CONSTANTS
   AllowStop = TRUE
   AllowFault = TRUE
   AliveCheck = TRUE
+  PhaseOn = {1, 2, 3, 4, 5}
+  AllowCtrlC = FALSE
+  MaxNFE = 1
 INVARIANT Report
 CHECK_DEADLOCK FALSE
